@@ -183,8 +183,20 @@ def s3(ck, an):
         t = iff.test
         txt = ast.unparse(t)
         c = fa.sym.cmp(t)
-        if "isnan(self.values)" in txt and c[0] == "truthy" and c[2]:
+        # by value id (the mask may travel through a local): any(isnan(values)) / any(values <= 0)
+        def _any_of(key, inner):
+            # any(...) / any(any(...)) / (...).any() over exactly `inner`: nothing masks part of the data out
+            k_ = key.replace("numpy.", "np.")
+            for _ in range(3):
+                if k_.startswith("np.any(") and k_.endswith(")"):
+                    k_ = k_[len("np.any("):-1]
+                elif k_.endswith(".any()"):
+                    k_ = k_[:-len(".any()")]
+            return k_ in (inner, f"({inner})")
+        if c[0] == "truthy" and c[2] and _any_of(c[1], "np.isnan(self.values)"):
             found["nan-values"] = True
+        if c[0] == "truthy" and c[2] and _any_of(c[1], "[self.values <= 0]"):
+            found["non-positive"] = True
         cmps = [n for n in ast.walk(t) if isinstance(n, ast.Compare)]
         for cm in cmps:
             k = fa.sym.cmp(cm)
